@@ -234,7 +234,9 @@ func runC13(rc *sim.RunCtx) {
 		slot{P(E("sys"), E("tags")), []string{"t1", "t1,t2"}}, slot{P(E("st"), E("counter")), []string{"1", "2", "3"}}, slot{P(E("st"), E("oper")), []string{"up", "down"}}, slot{P(E("sys"), E("uptime")), []string{"10", "20"}})
 	delTargets := []world.Path{P(E("k1", "name", "a")), P(E("k1", "name", "ab")), P(E("k1", "name", "b")), P(E("k1x", "name", "a")), P(E("sys"), E("ext")), P(E("sys"), E("hostname")), P(E("k1", "name", "a"), E("val")), P(E("sys"), E("extleaf")),
 		// state paths: one notification may delete config and state paths together (each goes to its own store)
-		P(E("st"), E("counter")), P(E("st"), E("oper")), P(E("sys"), E("uptime"))}
+		P(E("st"), E("counter")), P(E("st"), E("oper")), P(E("sys"), E("uptime")),
+		// a whole list (no keys) and a whole container: they cover what notifications that are still in flight wrote below them
+		P(E("k1")), P(E("k1x")), P(E("sys"))}
 	// ---- generate the script ----
 	var script []syncMsg
 	nmsg := 4 + t.Choose(10)
@@ -262,6 +264,9 @@ func runC13(rc *sim.RunCtx) {
 					if !seenD[d.String()] {
 						seenD[d.String()] = true
 						m.dels = append(m.dels, d)
+						if len(d) == 1 {
+							rc.Probe("whole-list-or-container-delete")
+						}
 					}
 				}
 				if len(m.dels) > 1 {
